@@ -70,7 +70,7 @@ func overlapFacts(res *sim.Result) (snapOverlapApply, restoreOverlapApply, resta
 	return
 }
 
-var snapPatterns = []string{"P7", "P7", "P7", "free", "free", "P6", "P11", "P1", "reads", "stopstart", "P12", "P3", "P26", "P27", "P27"}
+var snapPatterns = []string{"P7", "P7", "P7", "free", "free", "P6", "P11", "P1", "reads", "stopstart", "P12", "P3", "P26", "P27", "P27", "P33"}
 
 // C10: snapshots are exact.
 var propC10 = &simProp{
